@@ -597,7 +597,9 @@ class Flow:
                 how = ("unjustified", desc)
         elif isinstance(r, Opq) and (("rematch", base.node) in st.facts or any(f[0] == "match" and f[1] == base.node for f in st.facts)):
             how = ("opaque", desc)
-            if r.src.startswith("__h_len_") or r.src.startswith("len("):
+            import re as _re
+
+            if _re.fullmatch(r"__h_len_\w+__|len\([\w.\[\]]+\)", r.src):
                 how = ("len", desc)
             else:
                 st.note("POS", f"advance by {desc}: not the length of what was matched")
